@@ -1,7 +1,13 @@
+#[cfg(qcow2_rs_verif)]
+use crate::verif::HashMap;
+#[cfg(not(qcow2_rs_verif))]
 use std::collections::HashMap;
 use std::hash::Hash;
 use std::sync::atomic::{AtomicBool, AtomicUsize, Ordering};
 use std::sync::Arc;
+
+#[cfg(qcow2_rs_verif)]
+mod verif;
 
 pub(crate) struct AsyncLruCacheEntryInner<V> {
     value: V,
